@@ -15,6 +15,7 @@
 (*   [op |-> "gatecall", g, np, qs, mod]                                     *)
 (*   [op |-> "use", n] [op |-> "reset", n] [op |-> "barrier", qs]            *)
 (*   [op |-> "delay", qs] [op |-> "return", e] [op |-> "break"]              *)
+(*   [op |-> "switch", c] [op |-> "case"] [op |-> "default"] (closed by "close") *)
 (*   [op |-> "std"] (include "stdgates.inc") [op |-> "pragma"] [op |-> "annot"]*)
 (*   [op |-> "if", c, block] [op |-> "else", block] [op |-> "while", c, block]*)
 (*   [op |-> "for", v, block] [op |-> "gate", n, ps, qs] [op |-> "def", n, ps]*)
@@ -115,7 +116,9 @@ Init ==
   /\ prog = <<>> /\ stack = InitStack /\ syms = Builtins
   /\ open = <<>> /\ out = << <<>> >> /\ diags = <<>> /\ std = FALSE /\ panicked = FALSE /\ hasAnnot = FALSE
 
-CanEmit == ~panicked /\ Len(prog) < MaxStmts
+(* between `switch (c) {` and its `}` only case / default blocks may appear *)
+InSwitchHeader == open # <<>> /\ open[Len(open)].kind = "switch"
+CanEmit == ~panicked /\ Len(prog) < MaxStmts /\ ~InSwitchHeader
 (* a construct with a single-statement body may not be followed by "close"; it closes by itself *)
 TopOpen == open[Len(open)]
 InSingle == open # <<>> /\ ~TopOpen.block
@@ -146,6 +149,14 @@ CloseOne(s) ==
                           [] c.kind = "while" -> <<"While", c.cond, body>>
                           [] c.kind = "for" -> <<"For", c.var, c.it, body>>
             IN AppendStmt([s EXCEPT !.stack = st1, !.open = popped, !.ann = (s.ann \/ (c.kind = "else" /\ c.wasAnn))], outer, node)
+       (* a case / default block: its Local scope is left; the block becomes an entry of the enclosing switch *)
+       [] c.kind \in {"case", "default"} ->
+            AppendStmt([s EXCEPT !.stack = st1,
+                                 !.open = IF c.kind = "default" THEN [popped EXCEPT ![Len(popped)].hasDefault = TRUE] ELSE popped],
+                       outer, <<IF c.kind = "case" THEN "Case" ELSE "Default", body>>)
+       (* the closing brace of the switch: no scope of its own; body = its Case / Default entries in order *)
+       [] c.kind = "switch" ->
+            AppendStmt([s EXCEPT !.open = popped], outer, <<"Switch", c.cond, body>>)
        [] c.kind = "gate" ->
             LET b == Bind(st1, s.syms, c.name, TGate(Len(c.ps), Len(c.qs)))
                 node == <<"GateDefinition", IF b.ok THEN b.id ELSE "Err", c.pids, c.qids, body>>
@@ -321,6 +332,19 @@ OpenFor(v, it, block) ==
   LET b == Bind(Enter(stack, "Local"), syms, v, TInt) IN
   PushOpen([kind |-> "for", block |-> block, var |-> b.id, it |-> IterSkel(it)], b.st, b.sy, <<>>, [op |-> "for", v |-> v, it |-> it, block |-> block])
 
+(* SwitchCaseStmt: the control expression in the current scope; every case block and the default block has its own   *)
+(* Local scope; the braces of the switch itself open no scope.  Case values are integer literals.                   *)
+OpenSwitch(cn) ==
+  LET ev == CondSkel(cn) IN
+  PushOpen([kind |-> "switch", block |-> TRUE, cond |-> ev.skel, hasDefault |-> FALSE], stack, syms, ev.diags,
+           [op |-> "switch", c |-> cn, block |-> TRUE])
+OpenCase ==
+  /\ InSwitchHeader /\ ~TopOpen.hasDefault
+  /\ PushOpen([kind |-> "case", block |-> TRUE], Enter(stack, "Local"), syms, <<>>, [op |-> "case", block |-> TRUE])
+OpenDefault ==
+  /\ InSwitchHeader /\ ~TopOpen.hasDefault
+  /\ PushOpen([kind |-> "default", block |-> TRUE], Enter(stack, "Local"), syms, <<>>, [op |-> "default", block |-> TRUE])
+
 (* else: only directly after the true body of an if has closed; the If node is re-opened *)
 LastIsIf == LET cur == out[Len(out)] IN cur # <<>> /\ Len(cur[Len(cur)]) >= 1 /\
               (LET n == cur[Len(cur)] IN (n[1] = "If" /\ n[4] = FALSE) \/ (n[1] = "Annotated" /\ n[2][1] = "If" /\ n[2][4] = FALSE))
@@ -368,10 +392,12 @@ Inits == Exprs \cup {[k |-> "none"]}
 QLists == {<<n>> : n \in Names} \cup {<<n, m>> : n \in Names, m \in Names}
 CanOpen == Len(open) < MaxDepth
 
+(* gate modifiers: the names of the modifiers in source order joined by '+'; the graph must keep that order *)
+GateMods == {"none", "inv", "pow", "inv+pow", "pow+inv", "ctrl", "inv+ctrl", "ctrl+inv", "negctrl+pow", "pow+negctrl+inv"}
 SDecl    == CanEmit /\ \E ty \in DeclTypes, n \in Names, i \in Inits : (ty = "cint" => i.k # "none") /\ Decl(ty, n, i)
 SQDecl   == CanEmit /\ \E n \in Names, reg \in BOOLEAN : QDecl(n, reg)
 SAssign  == CanEmit /\ \E n \in Names, e \in RHS : Assign(n, e)
-SGateCall == CanEmit /\ \E g \in Names, np \in 0..1, qs \in QLists, md \in {"none", "inv", "pow"} : GateCall(g, np, qs, md)
+SGateCall == CanEmit /\ \E g \in Names, np \in 0..1, qs \in QLists, md \in GateMods : GateCall(g, np, qs, md)
 SUse     == CanEmit /\ \E n \in Names : UseStmt(n)
 SReset   == CanEmit /\ \E n \in Names : Reset(n)
 SBarrier == CanEmit /\ \E qs \in QLists : Barrier(qs)
@@ -387,17 +413,31 @@ SWhile   == CanEmit /\ CanOpen /\ \E cn \in Names, bl \in BOOLEAN : OpenWhile(cn
 SFor     == CanEmit /\ CanOpen /\ \E v \in Names, it \in Iterables, bl \in BOOLEAN : OpenFor(v, it, bl)
 SBin     == CanEmit /\ \E o \in BinOpsM, l \in Names, r \in Names : BinStmt(o, l, r)
 SLit     == CanEmit /\ \E f \in LitForms : LitStmt(f)
+(* the statement just emitted once more (two identical consecutive statements: equal texts, equal diagnostics in a row) *)
+LastIns == prog[Len(prog)]
+SRepeat  == CanEmit /\ prog # <<>> /\
+            (CASE LastIns.op = "assign" -> Assign(LastIns.n, LastIns.rhs)
+               [] LastIns.op = "gatecall" -> GateCall(LastIns.g, LastIns.np, LastIns.qs, LastIns.mod)
+               [] LastIns.op = "bin" -> BinStmt(LastIns.o, LastIns.l, LastIns.r)
+               [] LastIns.op = "use" -> UseStmt(LastIns.n)
+               [] LastIns.op = "reset" -> Reset(LastIns.n)
+               [] LastIns.op = "barrier" -> Barrier(LastIns.qs)
+               [] LastIns.op = "delay" -> Delay(LastIns.qs)
+               [] OTHER -> FALSE)
+SSwitch  == CanEmit /\ CanOpen /\ \E cn \in Names : OpenSwitch(cn)
+SCase    == ~panicked /\ Len(prog) < MaxStmts /\ CanOpen /\ OpenCase
+SDefault == ~panicked /\ Len(prog) < MaxStmts /\ CanOpen /\ OpenDefault
 SGate    == CanEmit /\ CanOpen /\ \E n \in Names, ps \in {<<>>} \cup {<<p>> : p \in Names}, qs \in QLists \cup {<<>>} : OpenGate(n, ps, qs)
 SDef     == CanEmit /\ CanOpen /\ \E n \in Names, ps \in {<<>>} \cup {<<p>> : p \in Names} : OpenDef(n, ps)
 SClose   == ~panicked /\ Close
 
 Next == SDecl \/ SQDecl \/ SAssign \/ SGateCall \/ SUse \/ SReset \/ SBarrier \/ SDelay \/ SReturn \/ SBreak \/ SPragma \/ SAnnot
-        \/ SStd \/ SIf \/ SElse \/ SWhile \/ SFor \/ SGate \/ SDef \/ SClose \/ SBin \/ SLit
+        \/ SStd \/ SIf \/ SElse \/ SWhile \/ SFor \/ SGate \/ SDef \/ SClose \/ SBin \/ SLit \/ SRepeat \/ SSwitch \/ SCase \/ SDefault
 Spec == Init /\ [][Next]_vars
 
 (***************************** invariants of M ******************************)
 (* with_scope! pairing: the scope depth always equals 1 + number of open constructs *)
-ScopeDepthMatchesNesting == Len(stack) = 1 + Len(open) /\ Len(out) = 1 + Len(open)
+ScopeDepthMatchesNesting == Len(stack) = 1 + Cardinality({i \in 1..Len(open) : open[i].kind # "switch"}) /\ Len(out) = 1 + Len(open)
 (* C03/C07: when nothing is open the table is back to the single global scope *)
 BackToGlobal == open = <<>> => (Len(stack) = 1 /\ stack[1].kind = "Global")
 IdsDense == \A i \in 1..Len(stack) : \A n \in DOMAIN stack[i].map : stack[i].map[n] \in 0..(Len(syms) - 1) /\ syms[stack[i].map[n] + 1].name = n
